@@ -364,6 +364,23 @@ def cargo_build(features=(), profile="debug", rustflags=(), no_default=False, ti
     return dst, out
 
 
+def native_rustflags():
+    """-C target-feature=... for the SIMD features this machine has (from /proc/cpuinfo), so that the
+    compile-time `cfg(target_feature = ...)` arms of the crates are compiled and can be executed here.
+    Returns [] when none of them is present."""
+    want = [("ssse3", "ssse3"), ("sse4_1", "sse4.1"), ("aes", "aes"), ("avx", "avx"), ("avx2", "avx2")]
+    try:
+        flags = set()
+        for line in open("/proc/cpuinfo"):
+            if line.startswith("flags"):
+                flags = set(line.split(":", 1)[1].split())
+                break
+    except OSError:
+        return []
+    have = ["+" + rust for cpu, rust in want if cpu in flags]
+    return ["-C", "target-feature=" + ",".join(have)] if have else []
+
+
 def run_harness(binary, args, timeout=1800, env_extra=None):
     env = dict(os.environ)
     if env_extra:
